@@ -221,6 +221,48 @@ class Gen:
             return None
         raise ValueError(ty)
 
+    def realise_fixed(self, ty, vals):
+        """a deserializable destination for `ty` in which some sequence nodes are std::array<E, N>;
+        `vals` = the values that reach this node.  Returns (realised type, destination tokens) or None"""
+        r = self.rng
+        k = ty[0]
+        if k in ('A', 'E', 'S'):
+            rt = self.realise(ty, True)
+            return None if rt is None else (rt, ty_tokens(ty))
+        if k == 'Q':
+            sub = self.realise_fixed(ty[1], [e for v in vals for e in v[1]])
+            if sub is None:
+                return None
+            elem, etoks = sub
+            lens = [len(v[1]) for v in vals] or [0]
+            if r.random() < 0.6:
+                n = r.choice(lens) if r.random() < 0.5 else max(0, r.choice(lens) + r.choice([-1, 1, 1, 2, 3]))
+                n = max(n, 1)
+                self.bump('seq-array')
+                return ({'ty': ty, 'cxx': 'std::array<%s, %d>' % (elem['cxx'], n), 'kind': 'seq', 'seqkind': 'array', 'elem': elem}, ['R%d' % n] + etoks)
+            kind = r.choice(['vector', 'deque', 'list'])
+            return ({'ty': ty, 'cxx': 'std::%s<%s>' % (kind, elem['cxx']), 'kind': 'seq', 'seqkind': kind, 'elem': elem}, ['Q'] + etoks)
+        if k == 'T':
+            subs = [self.realise_fixed(t, [v[1][i] for v in vals]) for i, t in enumerate(ty[1])]
+            if any(x is None for x in subs):
+                return None
+            elems = [x[0] for x in subs]
+            toks = ['T%d' % len(elems)] + [t for x in subs for t in x[1]]
+            if len(elems) == 2 and r.random() < 0.4:
+                return ({'ty': ty, 'cxx': 'std::pair<%s, %s>' % (elems[0]['cxx'], elems[1]['cxx']), 'kind': 'tup', 'elems': elems}, toks)
+            return ({'ty': ty, 'cxx': 'std::tuple<%s>' % ', '.join(e['cxx'] for e in elems), 'kind': 'tup', 'elems': elems}, toks)
+        if k == 'V':
+            alts = ty[1]
+            if not (len(alts) == 2 and alts[0] == ('N',) and alts[1] != ('N',)):
+                return None
+            sub = self.realise_fixed(alts[1], [v[2] for v in vals if v[1] == 1])
+            if sub is None:
+                return None
+            kind = r.choice(['optional', 'unique_ptr', 'shared_ptr'])
+            cxx = {'optional': 'std::optional<%s>', 'unique_ptr': 'std::unique_ptr<%s>', 'shared_ptr': 'std::shared_ptr<%s>'}[kind] % sub[0]['cxx']
+            return ({'ty': ty, 'cxx': cxx, 'kind': 'opt', 'optkind': kind, 'inner': sub[0]}, ['V2', 'N'] + sub[1])
+        return None
+
     def declare_enum(self, ty):
         name = ty[2]
         if any(d.startswith('enum class %s ' % name) for d in self.decls):
@@ -470,12 +512,61 @@ def make_program(rng, prefix, ncases):
         xrt = g.realise(ty, deser=True)
         RT = drt['cxx'] if drt else 'void'
         X = xrt['cxx'] if xrt else 'void'
-        body.append('static void case_%d() {\n  %s\n  using VT = %s;\n  const VT v = %s;\n  vr::report<VT, %s, %s>(%d, v);\n}' % (
-            i, '\n  '.join(statics), rt['cxx'], expr, RT, X, i))
-        cases.append({'ty': ty, 'val': val, 'cxx': rt['cxx'], 'rt': drt, 'xt': xrt})
+        fx = g.realise_fixed(ty, [val]) if has_seq(ty) else None
+        F = fx[0]['cxx'] if fx else 'void'
+        body.append('static void case_%d() {\n  %s\n  using VT = %s;\n  const VT v = %s;\n  vr::report<VT, %s, %s, %s>(%d, v);\n}' % (
+            i, '\n  '.join(statics), rt['cxx'], expr, RT, X, F, i))
+        cases.append({'ty': ty, 'val': val, 'cxx': rt['cxx'], 'rt': drt, 'xt': xrt,
+                      'fx': None if fx is None else {'cxx': F, 'dst': fx[1], 'fits': py_fits(fx[1], val)}})
     src = PROLOGUE + '\n'.join(g.decls) + '\n\n' + '\n'.join(body) + '\n\nint main() {\n' + \
         ''.join('  case_%d();\n' % i for i in range(ncases)) + '  return 0;\n}\n'
     return src, cases, g.stats
+
+
+def has_seq(ty):
+    k = ty[0]
+    if k == 'Q': return True
+    if k in ('T', 'V'): return any(has_seq(t) for t in ty[1])
+    return False
+
+
+def py_fits(dst_tokens, val):
+    """independent statement of `fits`: walks the destination tokens along the value"""
+    toks = list(dst_tokens)
+
+    def skip():
+        t = toks.pop(0)
+        c = t[0]
+        if c in 'QR': skip()
+        elif c in 'TV':
+            for _ in range(int(t[1:])): skip()
+        elif c == 'E':
+            for _ in range(int(t.split(':')[2])): toks.pop(0)
+        elif c == 'S':
+            for _ in range(int(t.split(':')[1])):
+                toks.pop(0); skip()
+
+    def go(vals):
+        """consumes the tokens of one node; vals = the values reaching it; returns whether all fit"""
+        t = toks.pop(0)
+        c = t[0]
+        if c in 'QR':
+            ok = all(len(v[1]) == int(t[1:]) for v in vals) if c == 'R' else True
+            return go([e for v in vals for e in v[1]]) and ok
+        if c == 'T':
+            ok = True
+            for i in range(int(t[1:])):
+                ok = go([v[1][i] for v in vals]) and ok
+            return ok
+        if c == 'V':
+            ok = True
+            for i in range(int(t[1:])):
+                ok = go([v[2] for v in vals if v[1] == i]) and ok
+            return ok
+        toks.insert(0, t)
+        skip()
+        return True
+    return go([val])
 
 
 def py_encode(ty, val):
